@@ -98,3 +98,208 @@ def replay_readonly(family, method, args, script, variant, check):
         out["violates"] = False
         out["note"] = "check not re-evaluated natively"
     return out
+
+
+# ---- native register-file inverter (independent decoder of the request frames), used to replay C17 / C19 witnesses --------
+class NativeRegs:
+    def __init__(self, mem=None, aa=None, blob=None):
+        self.mem = dict(mem or {})
+        self.aa = dict(aa or {})
+        self.blob = bytearray(blob or bytes(100))
+        self.log = []
+
+    def get(self, space, addr):
+        return (self.mem if space == "modbus" else self.aa).get(addr, 0)
+
+    def answer(self, command):
+        r = command.request
+        if isinstance(command, (ModbusRtuProtocolCommand, ModbusTcpProtocolCommand)):
+            o = 0 if isinstance(command, ModbusRtuProtocolCommand) else 6
+            fn, addr = r[o + 1], r[o + 2] * 256 + r[o + 3]
+            if fn == 3:
+                count = r[o + 4] * 256 + r[o + 5]
+                self.log.append(("read", "modbus", addr, count))
+                return b"".join(self.mem.get(addr + i, 0).to_bytes(2, "big") for i in range(count))
+            if fn == 6:
+                self.mem[addr] = r[o + 4] * 256 + r[o + 5]
+                self.log.append(("write", "modbus", addr, 1, bytes(r[o + 4:o + 6])))
+                return bytes(4)
+            if fn == 16:
+                n = r[o + 6]
+                data = bytes(r[o + 7:o + 7 + n])
+                for i in range(n // 2):
+                    self.mem[addr + i] = data[2 * i] * 256 + data[2 * i + 1]
+                self.log.append(("write", "modbus", addr, n // 2, data))
+                return bytes(4)
+        if isinstance(command, Aa55ProtocolCommand):
+            ctrl, func = r[4], r[5]
+            if (ctrl, func) == (1, 0x1A):
+                addr, count = r[7] * 256 + r[8], r[9]
+                self.log.append(("read", "aa55", addr, count))
+                return b"".join(self.aa.get(addr + i, 0).to_bytes(2, "big") for i in range(count))
+            if (ctrl, func) == (2, 0x39):
+                addr, n = r[7] * 256 + r[8], r[9]
+                data = bytes(r[10:12]) if r[6] == 5 else bytes(r[10:10 + n])
+                if addr == 0x560:
+                    self.blob[32:34] = data[0:2]
+                else:
+                    for i in range(len(data) // 2):
+                        self.aa[addr + i] = data[2 * i] * 256 + data[2 * i + 1]
+                self.log.append(("write", "aa55", addr, len(data) // 2, data))
+                return b"\x06"
+            if (ctrl, func) == (1, 9):
+                self.log.append(("read", "settings", 0, len(self.blob)))
+                return bytes(self.blob)
+            if ctrl == 1:
+                self.log.append(("read", "other", 0, 0))
+                return bytes(128)
+            if (ctrl, func) == (3, 0x59):
+                self.blob[66:68] = bytes([0, r[7]])
+                self.log.append(("write", "work_mode", 66, 1, bytes(r[7:8])))
+                return b"\x06"
+            if (ctrl, func) == (3, 0x35):
+                self.blob[52:54] = bytes(r[7:9])
+                self.log.append(("write", "export_limit", 52, 1, bytes(r[7:9])))
+                return b"\x06"
+            self.log.append(("write", "other", (ctrl, func), 0, b""))
+            return b"\x06"
+        return b""
+
+
+def attach_regs(inv, regs):
+    async def stub(command):
+        return ProtocolResponse(frame_around(command, regs.answer(command)), command)
+    inv._read_from_socket = stub
+
+
+def replay_write(family, table, sid, value, port, check, prior_word=0x1234):
+    """C17: write_setting(id, value) on the real class against the native register file, then read it back"""
+    from contracts import sensor as cs
+    import datetime
+    inv = make_inverter(family, 0) if port != 502 else type(make_inverter(family, 0))("host", 502, 0, 1, 3)
+    s = [r for r in cs.sensor_tables()[table] if r.id_ == sid][0]
+    inv._settings[sid] = s
+    regs = NativeRegs()
+    for i in range(8):
+        regs.mem[s.offset + i] = prior_word
+        regs.aa[s.offset + i] = prior_word
+    before_mem, before_aa = dict(regs.mem), dict(regs.aa)
+    attach_regs(inv, regs)
+    if isinstance(value, dict) and "fields" in value:
+        value = datetime.datetime(*value["fields"][:6])
+    out = {"value": repr(value)}
+    try:
+        asyncio.run(inv.write_setting(sid, value))
+    except BaseException as e:      # noqa
+        out["raised"] = repr(e)
+        writes = [e for e in regs.log if e[0] == "write"]
+        out["violates"] = check.startswith("C17_no_write_when_encoding_fails") and bool(writes)
+        return out
+    writes = [e for e in regs.log if e[0] == "write"]
+    out["writes"] = [(w[1], w[2], w[3], w[4].hex()) for w in writes]
+    nregs = (s.size_ + 1) // 2
+    if check.startswith("C17_exactly_one_write"):
+        out["violates"] = len(writes) != 1
+    elif check.startswith("C17_write_addresses") or check.startswith("C17_write_covers"):
+        out["violates"] = len(writes) != 1 or writes[0][2] != s.offset or writes[0][3] != nregs
+    elif check.startswith("C17_other_half"):
+        other = 1 if type(s).__name__ == "ByteH" else 0
+        out["violates"] = len(writes) != 1 or writes[0][4][other] != prior_word.to_bytes(2, "big")[other]
+    elif check.startswith("C17_written_value_reads_back") or check.startswith("C17_sentinel"):
+        try:
+            back = asyncio.run(inv.read_setting(sid))
+        except BaseException as e:      # noqa
+            back = e
+        out["reads_back"] = repr(back)
+        out["violates"] = not (back == value)
+    else:
+        changed = [a for a in set(before_mem) | set(regs.mem) if before_mem.get(a, 0) != regs.mem.get(a, 0)]
+        changed += [a for a in set(before_aa) | set(regs.aa) if before_aa.get(a, 0) != regs.aa.get(a, 0)]
+        out["changed"] = sorted(changed)
+        out["violates"] = any(not (s.offset <= a < s.offset + nregs) for a in changed)
+    return out
+
+
+def _c19_inverter(family, fw2, p745):
+    inv = make_inverter(family, 0)
+    inv.serial_number = "9000ETT000000000" if p745 else "9000ETU000000000"
+    if family == "ET":
+        if fw2:
+            inv._settings.update({s.id_: s for s in type(inv)._ET__settings_arm_fw_19})
+        else:
+            inv._has_eco_mode_v2 = False
+    else:
+        inv.serial_number = "9000ESU000000000"
+        if fw2:
+            inv._settings.update({s.id_: s for s in type(inv)._ES__settings_arm_fw_14})
+        inv.arm_version = 14 if fw2 else 5
+        inv.dsp1_version = 22 if fw2 else 1
+    return inv
+
+
+def replay_opmode(family, fw2, p745, mode, power, soc, prior, check):
+    from goodwe.inverter import OperationMode
+    inv = _c19_inverter(family, fw2, p745)
+    regs = NativeRegs()
+    base = (47547 if fw2 else 47515) if family == "ET" else (47547 if fw2 else 0x701)
+    prior = bytes(prior) + bytes(32)
+    for i in range(16):
+        w = prior[2 * i] * 256 + prior[2 * i + 1]
+        regs.mem[base + i] = w
+        regs.aa[base + i] = w
+    attach_regs(inv, regs)
+    m = OperationMode(mode)
+    out = {"mode": m.name}
+    try:
+        asyncio.run(inv.set_operation_mode(m, power, soc))
+    except BaseException as e:      # noqa
+        out["setter_raised"] = repr(e)
+        out["violates"] = True
+        return out
+    try:
+        got = asyncio.run(inv.get_operation_mode())
+    except BaseException as e:      # noqa
+        out["getter_raised"] = repr(e)
+        out["violates"] = True
+        return out
+    out["got"] = str(got)
+    if check.startswith("C19_getter_returns_mode"):
+        out["violates"] = got is not m
+        return out
+    if check.startswith("C19_setter_succeeds"):
+        out["violates"] = False
+        return out
+    eco = asyncio.run(inv.read_setting("eco_mode_1"))
+    out["eco"] = str(eco)
+    if check.startswith("C19_first_group_decodes_to_requested_power"):
+        out["violates"] = eco.get_power() != (-power if m == OperationMode.ECO_CHARGE else power)
+    elif check.startswith("C19_first_group_decodes_to_requested_soc"):
+        out["violates"] = eco.soc != soc
+    elif check.startswith("C19_other_groups"):
+        vals = [asyncio.run(inv.read_setting(f"eco_mode_{k}_switch")) for k in (2, 3, 4)]
+        out["switches"] = vals
+        out["violates"] = any(v != 0 for v in vals)
+    else:
+        out["violates"] = False
+    return out
+
+
+def replay_limit(family, which, x, variant):
+    inv = make_inverter(family, variant)
+    regs = NativeRegs()
+    attach_regs(inv, regs)
+    out = {}
+    try:
+        if which == "export_limit":
+            asyncio.run(inv.set_grid_export_limit(x))
+            got = asyncio.run(inv.get_grid_export_limit())
+        else:
+            asyncio.run(inv.set_ongrid_battery_dod(x))
+            got = asyncio.run(inv.get_ongrid_battery_dod())
+    except BaseException as e:      # noqa
+        out["raised"] = repr(e)
+        out["violates"] = not (family == "DT" and which == "dod" and isinstance(e, InverterError))
+        return out
+    out["got"] = repr(got)
+    out["violates"] = got != x
+    return out
